@@ -300,4 +300,100 @@ mod verif_c13 {
         std::mem::forget(out);
         kani::cover!(true);
     }
+
+    // ---- the container serializers are blind to what they carry: elements of every kind stay elements -----------------------
+    fn is_null(a: &Any) -> bool {
+        matches!(a.0, Inner::Null)
+    }
+
+    #[kani::proof]
+    #[kani::unwind(4)]
+    fn sequences_of_u8_stay_sequences() {
+        // binary is only what arrives through serialize_bytes; a list / tuple / tuple struct of u8 is a list
+        let a: u8 = kani::any();
+        let b: u8 = kani::any();
+        let mut s = AnySerializer.serialize_tuple(2).unwrap();
+        SerializeTuple::serialize_element(&mut s, &a).unwrap();
+        SerializeTuple::serialize_element(&mut s, &b).unwrap();
+        let out = SerializeTuple::end(s).unwrap();
+        assert!(matches!(&out.0, Inner::Seq(v) if v.len() == 2 && is_u8(&v[0], a) && is_u8(&v[1], b)));
+        std::mem::forget(out);
+        let mut s = AnySerializer.serialize_seq(Some(2)).unwrap();
+        SerializeSeq::serialize_element(&mut s, &a).unwrap();
+        SerializeSeq::serialize_element(&mut s, &b).unwrap();
+        let out = SerializeSeq::end(s).unwrap();
+        assert!(matches!(&out.0, Inner::Seq(v) if v.len() == 2 && is_u8(&v[0], a) && is_u8(&v[1], b)));
+        std::mem::forget(out);
+        let mut s = AnySerializer.serialize_tuple_struct("T", 1).unwrap();
+        SerializeTupleStruct::serialize_field(&mut s, &a).unwrap();
+        let out = SerializeTupleStruct::end(s).unwrap();
+        assert!(matches!(&out.0, Inner::Seq(v) if v.len() == 1 && is_u8(&v[0], a)));
+        std::mem::forget(out);
+        kani::cover!(true);
+    }
+
+    #[kani::proof]
+    #[kani::unwind(8)]
+    fn null_elements_and_fields_are_kept() {
+        // unit / None payloads are values like any other: they keep their slot
+        let x: i64 = kani::any();
+        let mut s = AnySerializer.serialize_seq(Some(2)).unwrap();
+        SerializeSeq::serialize_element(&mut s, &()).unwrap();
+        SerializeSeq::serialize_element(&mut s, &x).unwrap();
+        let out = SerializeSeq::end(s).unwrap();
+        assert!(matches!(&out.0, Inner::Seq(v) if v.len() == 2 && is_null(&v[0]) && is_i64(&v[1], x)));
+        std::mem::forget(out);
+        let mut s = AnySerializer.serialize_struct("S", 1).unwrap();
+        SerializeStruct::serialize_field(&mut s, "done", &()).unwrap();
+        let out = SerializeStruct::end(s).unwrap();
+        match single_entry(&out) {
+            Some((k, v)) => assert!(is_str(k, b"done") && is_null(v)),
+            None => assert!(false),
+        }
+        std::mem::forget(out);
+        let mut s = AnySerializer.serialize_struct("S", 1).unwrap();
+        SerializeStruct::serialize_field(&mut s, "opt", &None::<i64>).unwrap();
+        let out = SerializeStruct::end(s).unwrap();
+        match single_entry(&out) {
+            Some((k, v)) => assert!(is_str(k, b"opt") && is_null(v)),
+            None => assert!(false),
+        }
+        std::mem::forget(out);
+        kani::cover!(true);
+    }
+
+    #[kani::proof]
+    #[kani::unwind(6)]
+    fn struct_variant_fields_are_kept() {
+        let x: i64 = kani::any();
+        let mut s = AnySerializer.serialize_struct_variant("E", 2, "Var", 1).unwrap();
+        SerializeStructVariant::serialize_field(&mut s, "token", &()).unwrap();
+        let out = SerializeStructVariant::end(s).unwrap();
+        match single_entry(&out) {
+            Some((k, v)) => {
+                assert!(is_str(k, b"Var"));
+                match single_entry(v) {
+                    Some((kk, vv)) => assert!(is_str(kk, b"token") && is_null(vv)),
+                    None => assert!(false),
+                }
+            }
+            None => assert!(false),
+        }
+        std::mem::forget(out);
+        let mut s = AnySerializer.serialize_struct_variant("E", 2, "Var", 1).unwrap();
+        SerializeStructVariant::serialize_field(&mut s, "code", &x).unwrap();
+        let out = SerializeStructVariant::end(s).unwrap();
+        match single_entry(&out) {
+            Some((k, v)) => {
+                assert!(is_str(k, b"Var"));
+                match single_entry(v) {
+                    Some((kk, vv)) => assert!(is_str(kk, b"code") && is_i64(vv, x)),
+                    None => assert!(false),
+                }
+            }
+            None => assert!(false),
+        }
+        std::mem::forget(out);
+        kani::cover!(true);
+    }
 }
